@@ -63,7 +63,9 @@ def run(tier, seed):
             ("large", "identity", 0),
             ("large", "remove", 0),
             ("small", "chains4", 400 if tier == "quick" else 6000),
-            ("small", "shared", 1200 if tier == "quick" else 0)]
+            ("small", "shared", 800 if tier == "quick" else 0),
+            ("small", "sharedA", 900 if tier == "quick" else 0),
+            ("small", "sharedB", 900 if tier == "quick" else 0)]
     if tier == "thorough":
         plan.append(("large", "triples", 25000))
     groups = []
